@@ -225,7 +225,7 @@ def configurations(cls: str, n_rules: int, thorough: bool) -> Iterator[tuple[lis
     # per rule: "ok" (loaded, enabled), "unloaded", "disabled" (loaded; triggering it has no effect and leaves it not triggered)
     flags = [["ok"] * n_rules] + [[("unloaded" if j == i else "ok") for j in range(n_rules)] for i in range(n_rules)] + \
         [[("disabled" if j == i else "ok") for j in range(n_rules)] for i in range(n_rules)]
-    if thorough:
+    if thorough and n_rules <= 3:
         flags = [list(f) for f in itertools.product(("ok", "unloaded", "disabled"), repeat=n_rules)]
     counts = [1, 2] if not thorough else [0, 1, 2, n_rules, n_rules + 1]
     if cls not in ("First", "Last", "Highest", "Lowest"):
@@ -251,6 +251,7 @@ ASPECTS = {
     "selection": ("A-sem", "selection", "exactly the rules the definition selects are triggered, once, holding the degree the definition gives them"),
     "scalar-only": ("O-vec", "assert_is_not_vector", "assert_is_not_vector(degree) comes before anything consults the degree as a single number"),
     "no-internal-error": ("A-sem", "no-internal-error", "the method ends without an exception of its own"),
+    "history-free": ("A-sem", "history-free", "an activation object that was used before on another block does exactly what a new one does"),
 }
 VECTOR_INCAPABLE = ("First", "Last", "Highest", "Lowest", "Proportional", "Threshold")
 
@@ -268,43 +269,91 @@ def activation_semantics(check: Check, cls: str, aspects: tuple[str, ...] | None
     if len(params) < 2:
         raise AnalysisError(f"{cls}.activate: expected (self, rule_block)")
     thorough = check.tier == "thorough"
-    n_rules = (4 if cls not in ("First", "Last", "Threshold") else 3) if thorough else (2 if cls == "Threshold" else 3)
+    # quick: 3 rules (2 for Threshold, whose rules are decided one by one), one rule at a time unloaded / disabled;
+    # thorough: 3 rules with every combination of rule states, and 4 rules with one rule at a time unloaded / disabled
+    sizes = ([3, 4] if cls in ("Highest", "Lowest", "Proportional", "General") else [3]) if thorough else [2 if cls == "Threshold" else 3]
+    n_rules = max(sizes)
     helpers: dict[str, Any] = {}
     for c in reversed(fn.cls.mro or [fn.cls]):
         helpers.update({k: v for k, v in c.methods.items() if k not in ("activate", "assert_is_not_vector", "__init__")})
     bad: dict[str, tuple[str, Any]] = {}
     cases = 0
     try:
-        for degrees, states, n, t, cmp in configurations(cls, n_rules, thorough):
+        for degrees, states, n, t, cmp in itertools.chain(*[configurations(cls, k, thorough) for k in sizes]):
             cases += 1
             loaded = [st != "unloaded" for st in states]
             w = World(degrees, loaded, [st != "disabled" for st in states])
             comparator = MObj("Comparator", {"value": cmp, "name": cmp, "operator": (lambda ex, e, args, kw, f=COMPARATORS[cmp]: _compare(f, args, e, ex))})
-            me = MObj(cls, {"rules": n, "threshold": t, "comparator": comparator, "__bases__": ("Activation",)})
-            hooks = w.hooks()
-            ex = AbsExec(fn.qualname, hooks, helpers=helpers)
-            env = {params[0]: me, params[1]: w.block}
-            ex.globals = {"heapq": _heapq_ns(hooks["use"]), "scalar": lambda ex, e, args, kw: args[0], "np": Opaque("numpy"),
-                   "operator": MObj("module", {k: (lambda ex, e, args, kw, f=f: _compare(f, args, e, ex)) for k, f in
-                                               (("lt", _op.lt), ("le", _op.le), ("eq", _op.eq), ("ne", _op.ne), ("ge", _op.ge), ("gt", _op.gt))}),
-                   "Scalar": Opaque("type"), "Rule": ("class", "Rule"), "nan": float("nan"), "inf": float("inf")}
             what = _describe(cls, degrees, states, n, t, cmp)
+
+            def run(world: World, me: MObj) -> None:
+                hooks = world.hooks()
+                ex = AbsExec(fn.qualname, hooks, helpers=helpers)
+                ex.globals = {"heapq": _heapq_ns(hooks["use"]), "scalar": lambda ex, e, args, kw: args[0], "np": Opaque("numpy"),
+                              "operator": MObj("module", {k: (lambda ex, e, args, kw, f=f: _compare(f, args, e, ex)) for k, f in
+                                                          (("lt", _op.lt), ("le", _op.le), ("eq", _op.eq), ("ne", _op.ne), ("ge", _op.ge), ("gt", _op.gt))}),
+                              "Scalar": Opaque("type"), "Rule": ("class", "Rule"), "nan": float("nan"), "inf": float("inf")}
+                try:
+                    ex.block(list(node.body), {params[0]: me, params[1]: world.block})
+                except _Return:
+                    pass
+
+            me = _instance(p, fn, cls, n, t, comparator, helpers)
             try:
-                ex.block(list(node.body), env)
-            except _Return:
-                pass
+                run(w, me)
             except (Raised, Internal) as err:
                 bad.setdefault("no-internal-error", (f"{what}: the method ends with {err.cls}" + (f" ({err.why})" if getattr(err, "why", "") else ""), getattr(err, "node", None)))
                 continue
             want = _expected(cls, degrees, loaded, n, t, cmp)
             _judge(cls, w, want, what, bad)
+            # history: the same activation object, used before on another block (more candidates than it triggers), does the same
+            if "history-free" not in bad and (thorough or cases % 4 == 0):
+                k = len(degrees)
+                me2 = _instance(p, fn, cls, n, t, comparator, helpers)
+                prime = World([1.0 - i / 8.0 for i in range(k)], [True] * k)
+                w2 = World(degrees, loaded, [st != "disabled" for st in states])
+                try:
+                    run(prime, me2)
+                    run(w2, me2)
+                    same = w2.log == w.log
+                    how = "does something else"
+                except (Raised, Internal) as err:
+                    same, how = False, f"ends with {err.cls}"
+                if not same:
+                    first = next((f"{a} instead of {b}" for a, b in zip(w2.log, w.log) if a != b), f"{len(w2.log)} steps instead of {len(w.log)}")
+                    bad["history-free"] = (f"{what}: the same {cls} object, after having activated a block with degrees {', '.join(f'{d:g}' for d in prime.degrees)}, "
+                                           f"{how} ({first}): something survives in the activation object from one activation to the next", None)
     except Unknown as u:
         raise AnalysisError(str(u)) from None
     for aspect in aspects:
         rule, construct, good = ASPECTS[aspect]
         hit = bad.get(aspect) or (bad.get("no-internal-error") if aspect == "selection" and "no-internal-error" not in aspects else None)
-        check.require(hit is None, rule, f"{cls}.activate/{construct}", f"{good} ({cases} configurations of {n_rules} rules)" if hit is None else hit[0],
+        check.require(hit is None, rule, f"{cls}.activate/{construct}", f"{good} ({cases} configurations of {' and '.join(map(str, sizes))} rules)" if hit is None else hit[0],
                       loc(fn, hit[1]) if hit is not None and hit[1] is not None else loc(fn), {"configurations": cases, "rules": n_rules}, exhaustive=True, cases=cases)
+
+
+def _instance(p: Any, fn: Any, cls: str, n: int, t: float, comparator: MObj, helpers: dict[str, Any]) -> MObj:
+    """The activation object: what its own __init__ builds (so that state it sets up is there), with the parameters of the configuration."""
+    me = MObj(cls, {"__bases__": ("Activation",)})
+    init = fn.cls.lookup("__init__")
+    if init is not None and init.cls is not None and init.cls.name != "object":
+        node = init.node
+        names = [a.arg for a in node.args.args]
+        given = {"rules": n, "threshold": t, "comparator": comparator}
+        env: dict[str, Any] = {names[0]: me}
+        ex = AbsExec(init.qualname, {}, helpers=helpers)
+        ex.globals = {"Threshold": MObj("class", {"Comparator": lambda ex_, e, args, kw: comparator}), "Scalar": Opaque("type")}
+        try:
+            defaults = [None] * (len(names) - len(node.args.defaults)) + list(node.args.defaults)
+            for nm, d in zip(names[1:], defaults[1:]):
+                env[nm] = given[nm] if nm in given else (ex.ev(d, env) if d is not None else None)
+            ex.block(list(node.body), env)
+        except _Return:
+            pass
+        except (Unknown, Raised, Internal, AnalysisError):
+            me = MObj(cls, {"__bases__": ("Activation",)})  # the constructor is not the subject here
+    me.fields.update({"rules": n, "threshold": t, "comparator": comparator})
+    return me
 
 
 def _compare(f: Any, args: list[Any], e: Any, ex: AbsExec) -> bool:
